@@ -920,7 +920,11 @@ func runC12(c *Ctx, variant int) {
 			d.w.Advance(int64(w.Pick(1_000_000, 0, 60_000_000)))
 			d.poll()
 		case 11:
-			d.writeOp(s)
+			if w.Chance(1, 4) {
+				d.rejectedThenReplaced(s)
+			} else {
+				d.writeOp(s)
+			}
 		}
 	}
 	d.verify()
